@@ -87,6 +87,18 @@ def _gen_case(rng, exp, mode) -> Dict[str, Any]:
     refs: List[Dict[str, Any]] = []
     seen = set()
     tries = 0
+    preset: Dict[int, str] = {}
+    same_stage = [i for i in cands if prods[i]["stage"] == st]
+    if same_stage and rng.random() < 0.2:
+        # a direct reference data/<P> next to the stage-less spelling of the same-stage producer P
+        p = rng.choice(same_stage)
+        refs.append({"kind": "comp", "p": p, "file": None, "method": "ref", "decl": rng.choice(["abs", "rel"])})
+        seen.add((p, None, "ref"))
+        preset[0] = "rel"
+        f = prods[p]["name"]
+        refs.append({"kind": "data", "file": f, "method": "ref"})
+        seen.add(("data", f))
+        exp["data"].setdefault(f, _content(rng, names, "d%d" % len(exp["data"])))
     while len(refs) < k and tries < 40:
         tries += 1
         if rng.random() < 0.12:
@@ -123,7 +135,7 @@ def _gen_case(rng, exp, mode) -> Dict[str, Any]:
     rng.shuffle(occ)
     lits = ["run", "-v", "--n", "3", "x", "opt"] + names + ["stage0." + names[0], names[-1] + ".txt", "data/" + names[0]]
     toks: List[List[Any]] = [["lit", rng.choice(lits)]]
-    chosen: Dict[int, str] = {}
+    chosen: Dict[int, str] = dict(preset)
     submode = rng.choice(["both", "inside", "inside", "inside"])
     for ri in occ:
         r = refs[ri]
